@@ -188,6 +188,7 @@ func (c *Client) Close() error {
 	// rem() should be unblocking receiveLoop if it is blocked.
 	//
 	// receiveLoop should then exit gracefully.
+	vhook("CloseDonePre")
 	close(c.done)
 
 	// Wait for receiveLoop to stop.
@@ -215,6 +216,7 @@ func (c *Client) receiveLoop() {
 				if !isErrClosing(err) {
 					c.logger.Printf("error reading from UDP connection: %v", err)
 				}
+				vhook("LoopExit")
 				return
 			}
 
@@ -227,19 +229,24 @@ func (c *Client) receiveLoop() {
 					}
 					c.logger.Printf("Invalid DHCPv6 message received (len %d bytes), first 12 bytes: %#x", n, b)
 				}
+				vhook("LoopDrop", "undecodable")
 				continue
 			}
 
+			vhook("LoopPreLock", msg)
 			c.pendingMu.Lock()
 			p, ok := c.pending[msg.TransactionID]
+			vhook("LoopLocked", msg, ok)
 			if ok {
 				select {
 				case <-p.done:
+					vhook("LoopCloseEntry", msg, p.ch)
 					close(p.ch)
 					delete(c.pending, msg.TransactionID)
 
 				// This send may block.
 				case p.ch <- msg:
+					vhook("LoopDelivered", msg, p.ch)
 				}
 			} else if c.printDropped {
 				// The Stringer will print the transaction ID.
@@ -399,8 +406,10 @@ func (c *Client) Request(ctx context.Context, advertise *dhcpv6.Message, modifie
 //
 // Responses will be matched by transaction ID.
 func (c *Client) send(dest net.Addr, msg *dhcpv6.Message) (<-chan *dhcpv6.Message, func(), error) {
+	vhook("SendPreLock", msg)
 	c.pendingMu.Lock()
 	if _, ok := c.pending[msg.TransactionID]; ok {
+		vhook("SendRefused", msg)
 		c.pendingMu.Unlock()
 		return nil, nil, fmt.Errorf("transaction ID %s already in use", msg.TransactionID)
 	}
@@ -408,6 +417,7 @@ func (c *Client) send(dest net.Addr, msg *dhcpv6.Message) (<-chan *dhcpv6.Messag
 	ch := make(chan *dhcpv6.Message, c.bufferCap)
 	done := make(chan struct{})
 	c.pending[msg.TransactionID] = &pendingCh{done: done, ch: ch}
+	vhook("SendRegistered", msg, ch)
 	c.pendingMu.Unlock()
 
 	cancel := func() {
@@ -417,16 +427,21 @@ func (c *Client) send(dest net.Addr, msg *dhcpv6.Message) (<-chan *dhcpv6.Messag
 		// send on ch. We gotta unblock it first, so it'll unlock the
 		// lock, and then we can take the lock and remove the XID from
 		// the pending transaction map.
+		vhook("CancelPre", msg, ch)
 		close(done)
 
+		vhook("CancelPreLock", msg, ch)
 		c.pendingMu.Lock()
 		if p, ok := c.pending[msg.TransactionID]; ok {
+			vhook("CancelRemoved", msg, p.ch)
 			close(p.ch)
 			delete(c.pending, msg.TransactionID)
 		}
+		vhook("CancelLockEnd", msg, ch)
 		c.pendingMu.Unlock()
 	}
 
+	vhook("SendPreTx", msg)
 	if _, err := c.conn.WriteTo(msg.ToBytes(), dest); err != nil {
 		cancel()
 		return nil, nil, fmt.Errorf("error writing packet to connection: %v", err)
@@ -454,15 +469,19 @@ func (c *Client) SendAndRead(ctx context.Context, dest *net.UDPAddr, msg *dhcpv6
 		for {
 			select {
 			case <-c.done:
+				vhook("Wake", "closed")
 				return ErrNoResponse
 
 			case <-time.After(timeout):
+				vhook("Wake", "timeout")
 				return errDeadlineExceeded
 
 			case <-ctx.Done():
+				vhook("Wake", "ctx")
 				return ctx.Err()
 
 			case packet := <-ch:
+				vhook("Wake", "recv", packet)
 				if match == nil || match(packet) {
 					c.logger.PrintMessage("received message", packet)
 					response = packet
